@@ -40,7 +40,9 @@ class Source:
         return mk(self.kind, [self.whole()])
 
     def peek(self, pos, chain):
-        """symbolic value (0..255 / code point) of element `pos` under codec chain `chain`"""
+        """symbolic value (0..255 / code point) of element `pos` under codec chain `chain`.
+        A peek through a chain of total single-byte codecs is a table look-up of the raw element, so that inspections of the same
+        element before and after a decode/encode agree with each other (and with the witness built from the raw values)."""
         for p, ch, v in self.peeks:
             if ch == chain and same_int(p, pos):
                 return v
@@ -48,12 +50,43 @@ class Source:
             if ch == chain and not (isinstance(p, int) and isinstance(pos, int)):
                 if s_eq(p, pos):           # forks
                     return v
+        if chain:
+            tab = _chain_table(self.kind, chain)
+            if tab is not None:
+                raw = self.peek(pos, ())
+                v = core.STab(raw.t, 0, tab) if isinstance(raw, core.SInt) else tab[raw]
+                self.peeks.append((pos, chain, v))
+                return v
         v = core.cur().fresh_int('peek_%s_%d' % (self.name, len(self.peeks)), 0, 255)
         self.peeks.append((pos, chain, v))
         return v
 
     def __repr__(self):
         return '<%s>' % self.name
+
+
+_CHAIN_TABLES = {}
+
+
+def _chain_table(kind, chain):
+    """256-entry table of a codec chain applied to one element, or None when some element has no single-element image"""
+    key = (kind, chain)
+    if key not in _CHAIN_TABLES:
+        tab = []
+        try:
+            for b in range(256):
+                x = bytes([b]) if kind == 'b' else chr(b)
+                for op, c in chain:
+                    x = x.encode(c) if op == 'e' else x.decode(c)
+                if len(x) != 1:
+                    raise ValueError
+                tab.append(x[0] if isinstance(x, bytes) else ord(x))
+                if tab[-1] > 255:
+                    raise ValueError
+        except Exception:
+            tab = None
+        _CHAIN_TABLES[key] = tab
+    return _CHAIN_TABLES[key]
 
 
 def known_source(v):
@@ -587,7 +620,7 @@ class Rope:
     STRIP_MAX = 1
 
     def _strip_side(self, chars, left):
-        dflt = ' \t\n\r\x0b\x0c' if self.kind == 't' else b' \t\n\r\x0b\x0c'
+        dflt = ' \t\n\r\x0b\x0c\x1c\x1d\x1e\x1f\x85\xa0' if self.kind == 't' else b' \t\n\r\x0b\x0c'
         chars = dflt if chars is None else chars
         vals = [ord(c) for c in chars] if self.kind == 't' else list(chars)
         ps = list(nonempty_pieces(self))
@@ -610,7 +643,13 @@ class Rope:
                 L = p.length()
                 mode = ex.choose('strip_%s' % p.src.name, self.STRIP_MAX + 2)      # 0..STRIP_MAX elements, or everything
                 if mode == self.STRIP_MAX + 1:
-                    p.src.__dict__.setdefault('fills', []).append((p.lo, p.hi, vals[0], p.chain))
+                    if isinstance(L, int) and L <= 8:
+                        # short piece: every element is inspected individually (any mixture of strip characters)
+                        for i in range(L):
+                            b = p.src.peek(p.lo + i, p.chain)
+                            core.assume(s_or(*[s_eq(b, v) for v in vals]))
+                    else:
+                        p.src.__dict__.setdefault('fills', []).append((p.lo, p.hi, vals[0], p.chain))
                     ps.pop(0 if left else -1)
                     continue
                 k = mode
@@ -679,11 +718,26 @@ class Rope:
             raise Unsupported('%s.%s on abstract content' % ('str' if self.kind == 't' else 'bytes', name))
         raise AttributeError(name)
 
-    def startswith(self, prefix):
+    def startswith(self, prefix, *range_):
+        if range_:
+            return self[slice(*range_)].startswith(prefix) if isinstance(self[slice(*range_)], Rope) else self[slice(*range_)].startswith(prefix)
+        if isinstance(prefix, tuple):
+            for p in prefix:
+                if self.startswith(p):
+                    return True
+            return False
         n = rlen(prefix)
         return self[0:n] == prefix
 
-    def endswith(self, suffix):
+    def endswith(self, suffix, *range_):
+        if range_:
+            sub = self[slice(*range_)]
+            return sub.endswith(suffix)
+        if isinstance(suffix, tuple):
+            for p in suffix:
+                if self.endswith(p):
+                    return True
+            return False
         n = rlen(suffix)
         L = self.length()
         if L < n:
@@ -1110,7 +1164,12 @@ def concretize_source(src, ev):
                     pass
         for lo, hi, val, chain in src.__dict__.get('fills', []) + [(l, h, v, c) for l, h, v, c, b in src.__dict__.get('allsame', []) if ev(b)]:
             a, b = ev(lo), ev(hi)
-            if 0 <= a <= b <= n and not chain:
+            if chain:
+                tab = _chain_table('b', chain)
+                if tab is None or val not in tab:
+                    continue
+                val = tab.index(val)
+            if 0 <= a <= b <= n:
                 data[a:b] = bytes([val]) * (b - a)
         for pos, v in src.__dict__.get('u32s', []):
             p = ev(pos)
